@@ -3,6 +3,7 @@ package core
 import (
 	"math/rand"
 	"reflect"
+	"strings"
 
 	"github.com/junioryono/godi/v4"
 	"github.com/junioryono/godi/v4/verifh/eng"
@@ -70,3 +71,23 @@ func (r *Run) AncestorOrSelf(a, s int) bool { return r.ancestorOrSelf(a, s) }
 
 // TypeOf is reflect.TypeOf for a type parameter.
 func TypeOf[T any]() reflect.Type { return reflect.TypeOf((*T)(nil)).Elem() }
+
+// FuncKindFinding is one finding of the function-value-kind catalogue (constructors that are
+// distinct function values sharing code: closures of one literal, method values, MakeFunc,
+// variadic ones among them).
+type FuncKindFinding struct{ Case, Clause, Detail string }
+
+// RunFuncKinds runs the catalogue and returns the findings whose detail mentions the given
+// lifetime name ("singleton", "scoped", "transient"; "" = all), and the number of resolutions.
+func RunFuncKinds(lifetime string) (out []FuncKindFinding, n int) {
+	for _, fk := range funcKindCases {
+		fs, k := fk.run()
+		n += k
+		for _, f := range fs {
+			if lifetime == "" || strings.Contains(f.Detail, "("+lifetime+")") {
+				out = append(out, FuncKindFinding{fk.name, f.Clause, f.Detail})
+			}
+		}
+	}
+	return out, n
+}
